@@ -107,7 +107,7 @@ def _gen_get_child_nodes_func(
         for f, type_info in child_fields.items():
             _build_body(f, type_info)
 
-    _gen_func(clz, fname, ret_type, body, local_vars, extra_args="sort_keys: bool = False")
+    _gen_func(clz, fname, ret_type, body, local_vars, extra_args="*, sort_keys: bool = False")
 
 
 def _gen_get_child_nodes_with_field_func(
@@ -157,7 +157,7 @@ def _gen_get_child_nodes_with_field_func(
         for f, type_info in child_fields.items():
             _build_body(f, type_info)
 
-    _gen_func(clz, fname, ret_type, body, local_vars, extra_args="sort_keys: bool = False")
+    _gen_func(clz, fname, ret_type, body, local_vars, extra_args="*, sort_keys: bool = False")
 
 
 def _gen_iter_child_fields_func(
@@ -200,7 +200,7 @@ def _gen_iter_child_fields_func(
         for f in child_fields.keys():
             _build_body(f)
 
-    _gen_func(clz, fname, ret_type, body, local_vars, extra_args="sort_keys: bool = False")
+    _gen_func(clz, fname, ret_type, body, local_vars, extra_args="*, sort_keys: bool = False")
 
 
 def _gen_get_properties_func(clz: type[ASTNode], props: Mapping[Field, FieldTypeInfo]) -> None:
